@@ -1,7 +1,7 @@
 (* C12 -- "stops exactly at the final time", RungeKutta2::exe / RungeKutta4::exe as they are in the pinned tree
    (model fixed_exe of C12Model.v; selected by check.py when that model is the one that corresponds to /repo). *)
 From Coq Require Import Reals List.
-From C12 Require Import C12Spec C12Model C12Proofs.
+From C12 Require Import C12Model C12LoopProofs.
 Local Open Scope R_scope.
 
 (* what does hold: the loop ends in [end, end + h) *)
